@@ -201,11 +201,15 @@ def deserTableSpec : M (Bytes × Bytes) := do
   let t ← tag "table" readString
   pure (ks, t)
 
+/-- The global table spec if there is one, else a per-column table spec read from the buffer. -/
+def tableSpecFor (gts : Option (Bytes × Bytes)) : M (Bytes × Bytes) :=
+  match gts with
+  | some g => pure g
+  | none => deserTableSpec
+
 /-- One iteration of the loop of `deser_col_specs_generic`. -/
 def deserColSpec (gts : Option (Bytes × Bytes)) : M ColSpec := do
-  let ts ← match gts with
-    | some g => pure g
-    | none => deserTableSpec
+  let ts ← tableSpecFor gts
   let name ← tag "name" readString
   let ty ← deserTypeTop
   pure ⟨ts.1, ts.2, name, ty⟩
@@ -214,7 +218,7 @@ def deserColSpec (gts : Option (Bytes × Bytes)) : M ColSpec := do
 def deserColSpecs (gts : Option (Bytes × Bytes)) (colCount : Nat) : M (List ColSpec) := do
   let rem ← remaining
   allocReq (min colCount (rem / 4))
-  tag "col" (loopN colCount (deserColSpec gts))
+  loopN colCount (tag "col" (deserColSpec gts))
 
 structure ResultMeta where
   id : Option Bytes
@@ -237,11 +241,11 @@ def deserResultMetadata (f : Features) : M (ResultMeta × Option Bytes) := do
   if changed && noMeta then fail "idnometa"
   else do
     let colCount ← tag "colcount" readIntLength
-    let paging ← if hasMore then (do let p ← tag "paging" readBytes; pure (some p)) else pure none
-    let newId ← if changed then (do let i ← tag "newid" readShortBytes; pure (some i)) else pure none
-    let cols ← if noMeta then pure [] else do
-      let gts ← if globalSpec then (do let g ← tag "gts" deserTableSpec; pure (some g)) else pure none
-      deserColSpecs gts colCount
+    let paging ← optRead (hasMore) (tag "paging" readBytes)
+    let newId ← optRead (changed) (tag "newid" readShortBytes)
+    let cols ← condRead (!noMeta) (do
+      let gts ← optRead globalSpec (tag "gts" deserTableSpec)
+      deserColSpecs gts colCount) []
     pure (⟨newId, colCount, cols⟩, paging)
 
 structure PreparedMeta where
@@ -252,13 +256,6 @@ structure PreparedMeta where
   cols : List ColSpec
   deriving Repr
 
-def readPkIndexes : Nat → Nat → M (List (Nat × Nat))
-  | 0, _ => pure []
-  | n + 1, i => do
-    let idx ← tag "pkindex" readShort
-    let r ← readPkIndexes n (i + 1)
-    pure ((idx, i % 65536) :: r)
-
 /-- `deser_prepared_metadata`: capacity `min(pk_count, buf.len() / 2)`. -/
 def deserPreparedMetadata : M PreparedMeta := do
   let flags ← tag "flags" readInt
@@ -266,8 +263,9 @@ def deserPreparedMetadata : M PreparedMeta := do
   let pkCount ← tag "pkcount" readIntLength
   let rem ← remaining
   allocReq (min pkCount (rem / 2))
-  let pk ← readPkIndexes pkCount 0
-  let gts ← if flagSet flags 1 then (do let g ← tag "gts" deserTableSpec; pure (some g)) else pure none
+  let idxs ← loopN pkCount (tag "pkindex" readShort)
+  let pk := idxs.zipIdx.map (fun p => (p.1, p.2 % 65536))
+  let gts ← optRead (flagSet flags 1) (tag "gts" deserTableSpec)
   let cols ← deserColSpecs gts colCount
   pure ⟨flags, colCount, pk, cols⟩
 
@@ -280,12 +278,12 @@ structure Prepared where
 /-- `deser_prepared`. -/
 def deserPrepared (f : Features) : M Prepared := do
   let id ← tag "prep.id" readShortBytes
-  let rmid ← if f.metadataId then (do let i ← tag "prep.rmid" readShortBytes; pure (some i)) else pure none
+  let rmid ← optRead (f.metadataId) (tag "prep.rmid" readShortBytes)
   let pm ← tag "prep.pm" deserPreparedMetadata
-  let (rm, paging) ← tag "prep.rm" (deserResultMetadata f)
-  match paging with
+  let rp ← tag "prep.rm" (deserResultMetadata f)
+  match rp.2 with
   | some _ => fail "prep.nonzeropaging"
-  | none => pure ⟨id, pm, { rm with id := rmid }⟩
+  | none => pure ⟨id, pm, { rp.1 with id := rmid }⟩
 
 inductive MetaPresence where
   | noMetadata | justMetadata | withNewId
@@ -311,8 +309,8 @@ def deserRawRows (f : Features) : M RawRows := do
   else do
     let presence : MetaPresence := if noMeta then .noMetadata else if changed then .withNewId else .justMetadata
     let colCount ← tag "rows.colcount" readIntLength
-    let paging ← if hasMore then (do let p ← tag "rows.paging" readBytes; pure (some p)) else pure none
-    let raw ← fun s => (.ok s.buf, { s with buf := [] })
+    let paging ← optRead (hasMore) (tag "rows.paging" readBytes)
+    let raw ← takeRest
     pure ⟨colCount, globalSpec, presence, paging, raw⟩
 
 /-- Which metadata a Rows result ends up with. -/
@@ -327,20 +325,23 @@ structure DeserRows where
   rawRows : Bytes
   deriving Repr
 
-/-- `RawMetadataAndRawRows::deserialize_metadata` (`cached` = the caller passed cached metadata; its column specs
-are `cachedCols`). -/
+/-- The metadata a Rows result is given: cached, mock-empty, or parsed from the frame (`metadata_deserializer`). -/
+def metaFor (r : RawRows) (cached : Option ResultMeta) : M (MetaSource × ResultMeta) :=
+  match r.presence, cached with
+  | .noMetadata, some c => pure (MetaSource.cached, c)
+  | .noMetadata, none => pure (MetaSource.mockEmpty, (⟨none, 0, []⟩ : ResultMeta))
+  | p, _ => tag "meta" (do
+    let newId ← optRead (p = .withNewId) (tag "newid" readShortBytes)
+    let gts ← optRead r.globalSpec (tag "gts" deserTableSpec)
+    let cols ← deserColSpecs gts r.colCount
+    pure (MetaSource.parsed, (⟨newId, r.colCount, cols⟩ : ResultMeta)))
+
+/-- `RawMetadataAndRawRows::deserialize_metadata` (`cached` = the metadata the caller passed, if any). -/
 def deserMetadata (r : RawRows) (cached : Option ResultMeta) : M DeserRows := do
-  let (src, m) ← (match r.presence, cached with
-    | .noMetadata, some c => pure (MetaSource.cached, c)
-    | .noMetadata, none => pure (MetaSource.mockEmpty, (⟨none, 0, []⟩ : ResultMeta))
-    | p, _ => tag "meta" (do
-      let newId ← if p = .withNewId then (do let i ← tag "newid" readShortBytes; pure (some i)) else pure none
-      let gts ← if r.globalSpec then (do let g ← tag "gts" deserTableSpec; pure (some g)) else pure none
-      let cols ← deserColSpecs gts r.colCount
-      pure (MetaSource.parsed, (⟨newId, r.colCount, cols⟩ : ResultMeta))) : M (MetaSource × ResultMeta))
+  let sm ← metaFor r cached
   let rc ← tag "rowscount" readIntLength
-  let raw ← fun s => (.ok s.buf, { s with buf := [] })
-  pure ⟨src, m, rc, raw⟩
+  let raw ← takeRest
+  pure ⟨sm.1, sm.2, rc, raw⟩
 
 /-- `read_cql_bytes` over the cells of one row (`RawRowIterator::next` skips the row this way, `ColumnIterator` then
 re-reads the same cells): `Except (column index, kind)`. -/
